@@ -231,3 +231,99 @@ Proof.
   - intros _. rewrite !Hf. rewrite Zplus_mod_idemp_l. f_equal. lia.
   - rewrite !Hf. rewrite Zplus_mod_idemp_l. f_equal. lia.
 Qed.
+
+(* ---- remove_readout_os, k-space side, full statement ------------------------------------------------------------------- *)
+Lemma remove_os_full k k' : reconx k < encx k -> 0 < reconx k -> n0 k = encx k -> remove_readout_os k = inr k' ->
+  let start := encx k / 2 - reconx k / 2 in
+  0 <= start /\ start + reconx k <= n0 k /\                               (* the window lies inside the readout *)
+  n0 k' = reconx k /\ encx k' = reconx k /\ reconx k' = reconx k /\       (* exactly recon samples remain; header matrix updated *)
+  nO k' = nO k /\ nC k' = nC k /\ n2 k' = n2 k /\ n1 k' = n1 k /\
+  (forall o c a b j, fd k' o c a b j = fd k o c a b (start + j)) /\
+  (forall m o a b j, ft k' m o a b j = ft k m o a b (start + j)) /\
+  (forall r o a b, fi k' r o a b = if r =? 7 then fi k r o a b - start else fi k r o a b) /\
+  remove_readout_os k' = inr k'.                                           (* a second call changes nothing *)
+Proof.
+  intros Hlt Hpos Hn. unfold remove_readout_os. destruct (Z.eqb_spec (reconx k) (encx k)); [lia|].
+  destruct (Z.ltb_spec (encx k) (reconx k)); [lia|]. intros E. injection E as <-. cbn.
+  assert (Hm : Z.min (reconx k) (n0 k - (encx k / 2 - reconx k / 2)) = reconx k) by lia.
+  rewrite Hm. repeat split; try lia; try reflexivity.
+  now rewrite Z.eqb_refl.
+Qed.
+
+(* the window keeps exactly the samples start .. start + recon - 1, each once *)
+Lemma remove_os_window k k' : reconx k < encx k -> 0 < reconx k -> n0 k = encx k -> remove_readout_os k = inr k' ->
+  let start := encx k / 2 - reconx k / 2 in
+  (forall j, 0 <= j < n0 k' -> start <= start + j < start + reconx k /\ 0 <= start + j < n0 k) /\
+  (forall js, start <= js < start + reconx k -> exists j, 0 <= j < n0 k' /\ start + j = js /\ forall j', start + j' = js -> j' = j).
+Proof.
+  intros Hlt Hpos Hn E. destruct (remove_os_full _ _ Hlt Hpos Hn E) as (H0 & H1 & H2 & _). cbv zeta. split.
+  - intros j Hj. lia.
+  - intros js Hjs. exists (js - (encx k / 2 - reconx k / 2)). repeat split; lia.
+Qed.
+
+(* readouts whose kx is "sample number minus center_sample" stay so: center_sample is moved with the window *)
+Lemma remove_os_kfreq_consistent k k' : reconx k < encx k -> 0 < reconx k -> n0 k = encx k -> remove_readout_os k = inr k' ->
+  (forall o a b j, ft k 2 o a b j = j - fi k 7 o a b) -> forall o a b j, ft k' 2 o a b j = j - fi k' 7 o a b.
+Proof.
+  intros Hlt Hpos Hn E H o a b j. destruct (remove_os_full _ _ Hlt Hpos Hn E) as (_ & _ & _ & _ & _ & _ & _ & _ & _ & _ & Ht & Hi & _).
+  rewrite Ht, Hi, H. cbn. lia.
+Qed.
+
+(* a readout centred in the encoding matrix (center_sample = enc // 2) is centred in the recon matrix afterwards, the cropped kx is
+   the centred grid of the reduced matrix, symmetric around 0 when its size is odd *)
+Lemma remove_os_centred k k' : reconx k < encx k -> 0 < reconx k -> n0 k = encx k -> remove_readout_os k = inr k' ->
+  (forall o a b, fi k 7 o a b = encx k / 2) -> (forall o a b j, ft k 2 o a b j = j - encx k / 2) ->
+  (forall o a b, fi k' 7 o a b = encx k' / 2) /\
+  (forall o a b j, ft k' 2 o a b j = j - encx k' / 2) /\
+  (forall o a b, ft k' 2 o a b (encx k' / 2) = 0) /\
+  (Z.odd (reconx k) = true -> forall o a b j, ft k' 2 o a b (n0 k' - 1 - j) = - ft k' 2 o a b j).
+Proof.
+  intros Hlt Hpos Hn E Hc Hx. destruct (remove_os_full _ _ Hlt Hpos Hn E) as (_ & _ & Hn0 & He & _ & _ & _ & _ & _ & _ & Ht & Hi & _).
+  assert (A : forall o a b, fi k' 7 o a b = encx k' / 2) by (intros; rewrite Hi, Hc, He; cbn; lia).
+  assert (B : forall o a b j, ft k' 2 o a b j = j - encx k' / 2) by (intros; rewrite Ht, Hx, He; lia).
+  split; [exact A|]. split; [exact B|]. split; [intros; rewrite B; lia|].
+  intros Hodd o a b j. rewrite !B, Hn0, He. rewrite Z.odd_spec in Hodd. destruct Hodd as [q Hq]. lia.
+Qed.
+
+(* ---- rearrange_k2_k1_into_k1 is a regrouping: nothing dropped, nothing duplicated ------------------------------------- *)
+Lemma rearrange_bijection k k' : 0 < n1 k -> rearrange_k2_k1_into_k1 k = inr k' ->
+  n2 k' = 1 /\ n1 k' = n2 k * n1 k /\ nO k' = nO k /\ nC k' = nC k /\ n0 k' = n0 k /\
+  (forall o c a b j, 0 <= a < n2 k -> 0 <= b < n1 k ->
+     0 <= a * n1 k + b < n1 k' /\ fd k' o c 0 (a * n1 k + b) j = fd k o c a b j /\
+     (forall m, ft k' m o 0 (a * n1 k + b) j = ft k m o a b j)) /\
+  (forall b', 0 <= b' < n1 k' -> exists a b, 0 <= a < n2 k /\ 0 <= b < n1 k /\ b' = a * n1 k + b /\
+     forall a2 b2, 0 <= b2 < n1 k -> b' = a2 * n1 k + b2 -> a2 = a /\ b2 = b).
+Proof.
+  intros Hp E. injection E as <-. cbn. repeat split; try reflexivity.
+  - nia.
+  - nia.
+  - rewrite Z.div_add_l, Z.div_small, Z.add_0_r by lia. rewrite Z.add_comm, Z.mod_add, Z.mod_small by lia. reflexivity.
+  - intros m. rewrite Z.div_add_l, Z.div_small, Z.add_0_r by lia. rewrite Z.add_comm, Z.mod_add, Z.mod_small by lia. reflexivity.
+  - intros b' Hb. exists (b' / n1 k), (b' mod n1 k).
+    assert (Hm : 0 <= b' mod n1 k < n1 k) by (apply Z.mod_pos_bound; lia).
+    assert (Hd : 0 <= b' / n1 k < n2 k) by (split; [apply Z.div_pos; lia|apply Z.div_lt_upper_bound; lia]).
+    assert (Hdm : b' = b' / n1 k * n1 k + b' mod n1 k) by (rewrite Z.mul_comm; apply Z.div_mod; lia).
+    repeat split; try lia.
+    + intros. subst b'. rewrite Z.div_add_l, Z.div_small by lia. lia.
+    + intros. subst b'. rewrite Z.add_comm, Z.mod_add, Z.mod_small by lia. lia.
+Qed.
+
+(* a split whose index table is a bijection onto 0..n1-1 (split_idx without overlap that divides n1, or any permutation table) is
+   a regrouping too: every source k1 line occurs in exactly one (block, entry) *)
+Lemma split_k1_regrouping sidx label k k' : split_k1 sidx label k = inr k' ->
+  (forall b, 0 <= b < n1 k -> exists s e, 0 <= s < Z.of_nat (length sidx) /\ 0 <= e < Z.of_nat (length (hd [] sidx)) /\ zfun2 sidx s e = b /\
+     forall s2 e2, 0 <= s2 < Z.of_nat (length sidx) -> 0 <= e2 < Z.of_nat (length (hd [] sidx)) -> zfun2 sidx s2 e2 = b -> s2 = s /\ e2 = e) ->
+  forall o c a b j, 0 <= b < n1 k -> 0 <= o ->
+    exists s e, 0 <= s < Z.of_nat (length sidx) /\ 0 <= e < n1 k' /\ fd k' (o * Z.of_nat (length sidx) + s) c a e j = fd k o c a b j /\
+      forall s2 e2, 0 <= s2 < Z.of_nat (length sidx) -> 0 <= e2 < n1 k' -> zfun2 sidx s2 e2 = b -> s2 = s /\ e2 = e.
+Proof.
+  intros E Hbij o c a b j Hb Ho. destruct (Hbij b Hb) as (s & e & Hs & He & Hz & Hu).
+  pose proof (split_k1_spec _ _ _ _ E o s c a e j Hs) as Hf.
+  assert (Hn1 : n1 k' = Z.of_nat (length (hd [] sidx))).
+  { revert E. unfold split_k1. destruct (1 <? _); [discriminate|]. destruct (_ || _); [discriminate|]. destruct (t1 k <=? _); [discriminate|].
+    intros E. now injection E as <-. }
+  exists s, e. rewrite Hn1. repeat split; try lia.
+  - rewrite Hf, Hz. reflexivity.
+  - eapply Hu; eauto.
+  - eapply Hu; eauto.
+Qed.
